@@ -66,6 +66,16 @@ def run_case(case, prop) -> Dict[str, Any]:
         out["steps"] += A.n_steps
         over = {sid: sorted(t for t in d if any(x >= M for x in t[1:])) for sid, d in A.dem.items()}
         over = {sid: v for sid, v in over.items() if v}
+        # the property counts sub-steps *within one time step*; mosaik looks at the sub-time labels.
+        # Both agree as long as every time step starts at sub-time 0.
+        over_count = {}
+        for sid_, d_ in A.dem.items():
+            for i_ in range(1, rm.depth[sid_]):
+                groups_ = {}
+                for t_ in d_:
+                    groups_.setdefault(t_[:i_], set()).add(t_[:i_ + 1])
+                if any(len(v_) > M for v_ in groups_.values()):
+                    over_count[sid_] = True
         any_sub = any(any(x > 0 for x in t[1:]) for d in A.dem.values() for t in d)
         if any_sub:
             st["substeps_demanded"] = st.get("substeps_demanded", 0) + 1
@@ -95,6 +105,16 @@ def run_case(case, prop) -> Dict[str, Any]:
                     report({"kind": "guard_fired_within_bound",
                             "detail": {"message": oc[2], "M": M,
                                        "max_demanded_subtier": max([max(t[1:], default=0) for d in A.dem.values() for t in d], default=0)}}, hd, sp)
+                elif not over_count and n_weak_cycles <= 1 and carried(A, rm):
+                    # the label reached the bound although no simulator was asked for more than M
+                    # sub-steps in any one time step: sub-time from an *earlier* time step was carried
+                    # into this one over a time-shifted connection inside the group, so the label is
+                    # no longer the number of weak hops taken in this time step
+                    report({"kind": "guard_fired_within_bound",
+                            "features": {"subtime_carried_over_shifted_connection": True},
+                            "detail": {"message": oc[2], "M": M, "named": named,
+                                       "carried": carried(A, rm)[:3],
+                                       "demands_of_named": sorted(A.dem.get(named, {}))[-8:]}}, hd, sp)
                 elif named not in over:
                     if n_weak_cycles <= 1:
                         report({"kind": "guard_names_wrong_simulator",
@@ -112,6 +132,25 @@ def run_case(case, prop) -> Dict[str, Any]:
     out["sample"] = {"loop": lp, "sims": [(s["sid"], s["type"], s["group"]) for s in sc["sims"]],
                      "conns": sc["conns"], "until": sc["until"]}
     out["digest"] = digest(digs)
+    return out
+
+
+def carried(A, rm):
+    """Demands whose cause is a trigger over a time-shifted connection inside a group, sent from a
+    step with a sub-time > 0: the receiver's time step starts with that sub-time."""
+    out = []
+    for sid, d in A.dem.items():
+        for tau, causes in d.items():
+            for c in causes:
+                if c[0] != "trigger":
+                    continue
+                e = rm.conns[c[3]]
+                if not (e.k >= 1 and e.c >= 2):
+                    continue
+                src = A.steps[c[1]][c[2]]
+                st = getattr(src, "out_tau", None) or src.tau
+                if st is not None and any(x > 0 for x in st[1:e.c]):
+                    out.append((sid, tau, c[1], st))
     return out
 
 
